@@ -267,6 +267,10 @@ def check(a):
 
 def report(a):
     res = json.load(open(os.path.join(ROOT, "automut", "results.json")))
+    tpath = os.path.join(ROOT, "automut", "triage.json")
+    for k, v in (json.load(open(tpath)) if os.path.exists(tpath) else {}).items():
+        if k in res:
+            res[k]["triage"] = v
     tested = json.load(open(f"{AM}/tested.json")) if os.path.exists(f"{AM}/tested.json") else {}
     from collections import Counter
     print("tested:", Counter(tested.values()))
